@@ -284,6 +284,125 @@ def combos(tier):
                     yield c
 
 
+def history_job(args):
+    """Reads on a used application: (1) two ``load_network_info`` calls in flight together, the second started while the first is
+    suspended on its k-th command; (2) a read during which the NCP refuses the j-th key export with a transient failure (that read
+    may fail), followed by an ordinary read.  The settings read back at the end must be those of an undisturbed read."""
+    version, rewritable, tier = args
+    import copy
+    import logging
+
+    logging.disable(logging.CRITICAL)
+    viol = []
+    n = 0
+    c = {k: v[0] for k, v in DIMS.items()}
+    c["link_keys"], c["children"] = 3, "two-with-nwk"
+
+    def snapshot(app):
+        return copy.deepcopy((app.state.network_info, app.state.node_info))
+
+    def prepared(read=True):
+        ctx = Ctx(version, rewritable)
+        ni, no = make_info(ctx, c)
+        for coro in (ctx.app.write_network_info(network_info=ni, node_info=no),) + ((ctx.app.load_network_info(load_devices=True),) if read else ()):
+            r = ctx.run(coro)
+            if r[0] != "ok":
+                ctx.close()
+                return None, f"{r[0]} {r[1]!r:.100}"
+        return ctx, snapshot(ctx.app)
+
+    def differences(a, b):
+        out = []
+        for obj_a, obj_b, what in ((a[0], b[0], "network_info"), (a[1], b[1], "node_info")):
+            da, db = obj_a.as_dict(), obj_b.as_dict()
+            # tables are compared as sets: two reads in flight together both append to the same table objects on the pinned tree
+            # (duplicated entries, which the property's sequential quantifier does not cover); a wrong or missing entry still shows
+            for dd in (da, db):
+                for k, v in list(dd.items()):
+                    if isinstance(v, list):
+                        dd[k] = sorted({repr(x) for x in v})
+            for k in da:
+                if da[k] != db.get(k):
+                    out.append(f"{what}.{k}: {da[k]!r:.90} instead of {db.get(k)!r:.90}")
+        return out
+
+    # (1) overlapping reads
+    for k in (range(1, 31) if tier != "quick" else (1, 2, 3, 4, 5, 6, 8, 11, 15, 22)):
+        ctx, ref = prepared()
+        if ctx is None:
+            return n, [(f"C14|history|setup", f"v{version}: settings round trip for the history cases ended with {ref}", {"version": version, "rewritable": rewritable, "history": "setup"})]
+        n += 1
+        try:
+            held = []
+            ctx.ncp.submit = held.append
+            t1 = ctx.loop.create_task(ctx.app.load_network_info(load_devices=True))
+            ctx.loop.settle()
+            for _ in range(k):
+                if held:
+                    ctx.ezsp.frame_received(held.pop(0))
+                    ctx.loop.settle()
+            t2 = ctx.loop.create_task(ctx.app.load_network_info(load_devices=True))
+            ctx.loop.settle()
+            steps = 0
+            while not (t1.done() and t2.done()) and steps < 5000:
+                steps += 1
+                if held:
+                    ctx.ezsp.frame_received(held.pop(0))
+                    ctx.loop.settle()
+                else:
+                    ctx.loop.advance(0.5)
+                    if not held and not (t1.done() and t2.done()):
+                        break
+            bad = [t for t in (t1, t2) if not t.done() or t.cancelled() or t.exception() is not None]
+            msg = None
+            if bad:
+                msg = f"one of them ended with {bad[0].exception()!r:.100}" if bad[0].done() and not bad[0].cancelled() else "one of them did not finish"
+            else:
+                d = differences(snapshot(ctx.app), ref)
+                if d:
+                    msg = "; ".join(d[:3])
+            if msg:
+                viol.append((f"C14|history|overlapping-reads|{msg.split(':')[0][:40]}", f"v{version}: two load_network_info() calls in flight together (the second started while the first was on its "
+                             f"command #{k}): {msg}", {"version": version, "rewritable": rewritable, "history": "overlap", "k": k}))
+            for t in (t1, t2):
+                if not t.done():
+                    t.cancel()
+            ctx.loop.settle()
+        finally:
+            ctx.close()
+        if viol:
+            break
+    # (2) a read with one refused key export, then an ordinary read
+    ctx0, ref = prepared()
+    if ctx0 is not None:
+        ctx0.close()
+    for j in range(4):
+        # (the faulty read is the first one after the write: nothing the library may have remembered from a good read helps it)
+        ctx, _ = prepared(read=False)
+        if ctx is None or ctx0 is None:
+            break
+        n += 1
+        try:
+            ctx.ncp.key_reads = 0
+            ctx.ncp.refuse_key_read = j
+            ctx.run(ctx.app.load_network_info(load_devices=True))          # may fail: the NCP refused a key export
+            ctx.ncp.refuse_key_read = None
+            r = ctx.run(ctx.app.load_network_info(load_devices=True))
+            msg = None
+            if r[0] != "ok":
+                msg = f"it ended with {r[0]} {r[1]!r:.100}"
+            else:
+                d = differences(snapshot(ctx.app), ref)
+                if d:
+                    msg = "; ".join(d[:3])
+            if msg:
+                viol.append((f"C14|history|read-after-failed-read|{msg.split(':')[0][:40]}", f"v{version}: an ordinary load_network_info() after one during which the NCP refused key export #{j + 1}: {msg}",
+                             {"version": version, "rewritable": rewritable, "history": "failed-read", "j": j}))
+        finally:
+            ctx.close()
+    return n, viol
+
+
 def job(args):
     version, rewritable, tier = args
     import logging
@@ -316,6 +435,12 @@ def main(tier: str) -> int:
         sigs += s
         for key, msg, rp in viol:
             rep.add_violation(key, msg, rp)
+    n_hist = 0
+    for nh, viol in explore.pool().imap_unordered(history_job, [(v, v >= 9, tier) for v in ezspenv.VERSIONS], chunksize=1):
+        n_hist += nh
+        for key, msg, rp in viol:
+            rep.add_violation(key, msg, {"world": "c14", **rp})
+    total += n_hist
     if total < 1000 or sigs < 50:
         raise explore.InternalError(f"C14 vacuous: {total} cases, {sigs} signatures")
     rep.coverage = {
@@ -337,6 +462,11 @@ def main(tier: str) -> int:
 
 
 def replay(data) -> int:
+    if data.get("history"):
+        n, viol = history_job((data["version"], data["rewritable"], "thorough"))
+        for v in viol:
+            print("VIOLATION:", v[1])
+        return 1 if viol else 0
     c = {k: (tuple(v) if isinstance(v, list) else v) for k, v in data["case"].items()}
     if isinstance(c.get("pan"), tuple) and isinstance(c["pan"][1], str):
         c["pan"] = (c["pan"][0], eval(c["pan"][1]))
